@@ -3515,11 +3515,27 @@ class MapIndexAlign(MapAlign):
 
 class OpAlignPartitions(MaybeAlignPartitions):
     _parameters = ["frame", "other", "op"]
-    _projection_passthrough = True
 
     @functools.cached_property
     def _meta(self):
         return getattr(self.frame._meta, self.op)(self.other._meta)
+
+    def _simplify_up(self, parent, dependents):
+        if isinstance(parent, Projection):
+            # Both operands contribute to the selected columns. They have to
+            # stay DataFrames, so the projection itself is kept on top.
+            columns = determine_column_projection(self, parent, dependents)
+            columns = _convert_to_list(columns)
+            operands = [self.frame, self.other]
+            for i, op in enumerate(operands):
+                cols = [col for col in op.columns if col in columns]
+                if op.ndim > 1 and cols != op.columns:
+                    operands[i] = op[cols]
+            if operands[0] is self.frame and operands[1] is self.other:
+                return
+            return type(parent)(
+                type(self)(*operands, *self.operands[2:]), *parent.operands[1:]
+            )
 
     def _lower(self):
         # This can be expensive when something that has expensive division
